@@ -129,6 +129,12 @@ CATALOGUE = [
     "struct Foo:\n  0 [+8]  UInt  offset\n  offset [+1]  UInt  x\n",
     "struct Data:\n  0 [+1]  Data  d1\n  let x = d1.x\n",
     "struct Foo:\n  0 [+1]  UInt  f0\n" + "".join("  $next [+1]  UInt  f%d\n" % i for i in range(1, 200)),
+    # definitions in terms of themselves through a nested instance; chains that used to take exponential time
+    "struct Node:\n  0 [+1]  UInt  n\n  1 [+2]  Node  child\n  let a = child.a\n  let z = a.n\n",
+    "struct Node:\n  0 [+1]  UInt  n\n  1 [+2]  Node  child\n  let a = child.a\n",
+    "struct Node:\n  0 [+1]  UInt  n\n  1 [+2]  Node  child\n  let a = child.a + 1\n",
+    "struct Foo:\n  0 [+1]  UInt  x\n  let a0 = x\n" + "".join("  let a%d = $max(a%d, a%d)\n" % (i + 1, i, i) for i in range(24)),
+    "struct Foo:\n  0 [+1]  UInt  x\n  let a0 = x\n" + "".join("  let a%d = a%d + a%d\n" % (i + 1, i, i) for i in range(24)),
     # astronomically wide integers that are referenced
     "struct Foo:\n  0 [+4_000_000_000]  UInt  tag\n  let y = tag\n",
     "struct Foo:\n  0 [+100_000_000]  Int  tag\n  if tag == 1:\n    0 [+1]  UInt  z\n",
